@@ -25,6 +25,11 @@ func init() {
 			ruleFlushErrflow(r)
 			ruleApplyBeforeRotate(r)
 			ruleFinishOnlyVerified(r)
+			ruleIdempotent(r)
+			c11FlagRules(r)
+			ruleRotate(r)
+			ruleWalDirAfterFlush(r)
+			ruleReaderErrflow(r)
 		})
 	register("C07",
 		"Static ordering rules for the WAL: sync append = write + flush + fsync before a nil return (must-pass-through on the CFG), AppendSync uses the fsyncing writer call, rotation closes the old file before creating the next, size check precedes each write, replay sorts the fixed-width file names before reading, and replay classifies every truncation-class reader error as end of log (E-TORN). Decides the orderings on all paths; sequence equality and crash-point enumeration are not decided.",
@@ -36,6 +41,7 @@ func init() {
 			ruleTorn(r)
 			ruleNames(r, []string{"wal-format", "sorted-replay"})
 			ruleWalErrflow(r)
+			ruleReaderErrflow(r)
 		})
 	register("C10",
 		"Static rules for recovery: the WAL directory is removed only after the replayed memstore's table was flushed (or nothing was replayed); every destructive primitive on the path from Open is idempotent or constant-guarded off that path; the rename target is cleared first and later removals exclude it; a second Open accepts what a killed first Open can leave (E-TORN, partial-table). Decides these shapes on all paths; equality of outcomes over nested crash points is not decided.",
@@ -47,6 +53,9 @@ func init() {
 			rulePartialTable(r)
 			ruleNames(r, []string{"sorted-recovery", "sorted-replay"})
 			ruleFinishOnlyVerified(r)
+			ruleTableBeforeWalRemove(r)
+			ruleRotate(r)
+			ruleReaderErrflow(r)
 		})
 	register("C13",
 		"Static rules for the asynchronous WAL: the buffered append exists only under the option (control dependence), rotation closes (flushes) the old WAL file before the memstore is handed to the flusher, FileWriter.Close flushes before closing, and replay treats an incomplete final record as end of log (E-TORN). Decides these shapes; the prefix property over crash points is not decided.",
@@ -57,6 +66,8 @@ func init() {
 			ruleTableBeforeWalRemove(r)
 			ruleLogBeforeApply(r)
 			ruleApplyBeforeRotate(r)
+			ruleReaderErrflow(r)
+			ruleHeaderAtOpen(r)
 		})
 }
 
